@@ -1586,3 +1586,74 @@ def rule_replay_false_asked(db: ProgramDB) -> List[Instance]:
     if n < 4:
         raise AnalysisError(f"only {n} replay call(s) found")
     return out
+
+
+# ---------------------------------------------------------------------------------- REPLAY-CHILD-DEDUP
+def rule_replay_child_dedup(db: ProgramDB) -> List[Instance]:
+    """Some operators suppress duplicates of their TRUE rows themselves while they are evaluated (an else-if: a binding its right side
+    yields is dropped when what the parent keeps of it was seen before).  An operator that answers for such an operand from a cache
+    replays what the operand yielded for that binding - and what it yields depends on what was seen before, which the cache does not
+    record.  So wherever an operand can be of a class that suppresses true duplicates itself, a per-row replay of that operand's rows
+    has to go through the operand's duplicate test too."""
+    out = []
+    se = db.cls("SymbolicExpression")
+    # classes whose evaluation suppresses duplicates of true rows
+    suppressing = []
+    for c in se.all_subclasses():
+        m = c.methods.get("_evaluate__")
+        if m is None or m.cls is not c:
+            continue
+        for i in [x for x in own_nodes(m.node) if isinstance(x, ast.If)]:
+            if any(isinstance(y, ast.Call) and call_attr(y) == "_is_duplicate_output_" for y in ast.walk(i.test)) and i.body and isinstance(i.body[-1], ast.Continue):
+                # guarded by 'the row is true'?
+                from ..boolexpr import guards_of
+                g = guards_of(i, m.node.body) or []
+                if any(isinstance(t, ast.UnaryOp) and isinstance(t.op, ast.Not) and "_is_false_" in unparse(t.operand) and pol for t, pol in g) or \
+                        any("_is_false_" in unparse(t) and not pol for t, pol in g):
+                    suppressing.append(c)
+    suppressing = sorted({c.name for c in suppressing})
+    if not suppressing:
+        out.append(inst("REPLAY-CHILD-DEDUP", INFO, se, "operators[operand that suppresses true duplicates itself]", "no operator suppresses duplicates of its true rows itself"))
+        return out
+    n = 0
+    for c in sorted(se.all_subclasses(), key=lambda k: k.qualname):
+        m = c.methods.get("_evaluate__")
+        if m is None or m.cls is not c or not m.is_generator:
+            continue
+        for call in own_calls(m):
+            if call_attr(call) != "yield_final_output_from_cache":
+                continue
+            helper = c.lookup("yield_final_output_from_cache")
+            amap = bind_args(fn_params(helper), call)
+            cexpr = amap.get("cache")
+            if not (cexpr is not None and isinstance(cexpr, ast.Attribute) and cexpr.attr.split("_")[0] in ("left", "right")):
+                continue
+            side = cexpr.attr.split("_")[0]
+            # a class (and every subclass that inherits this method) that never caches never replays
+            from ..facts import cache_switch_value_for
+            users = [k for k in [c] + c.all_subclasses() if k.lookup("_evaluate__") is m or k.is_subclass_of(c)]
+            if all(cache_switch_value_for(db, k, "_caching_enabled_") == "off" for k in users):
+                out.append(inst("REPLAY-CHILD-DEDUP", INFO, m, f"{m.short}[replay of self.{side}: an operand that suppresses true duplicates itself]",
+                                "this class never consults its caches (_caching_enabled_ is constantly False)", line=call.lineno))
+                continue
+            n += 1
+            # the operand field's declared type admits a suppressing class?
+            fld = c.field(side)
+            admits = True      # operands are arbitrary conditions
+            asks_child = any(isinstance(x, ast.Call) and call_attr(x) == "_is_duplicate_output_" and unparse(x.func.value) == f"self.{side}" for x in own_nodes(m.node)) or \
+                any(k.arg and "operand" in k.arg for k in call.keywords)
+            own_test = amap.get("suppress_true_duplicates")
+            if not asks_child and own_test is not None and isinstance(own_test, ast.Constant) and own_test.value is True:
+                out.append(inst("REPLAY-CHILD-DEDUP", INFO, m, f"{m.short}[replay of self.{side}: an operand that suppresses true duplicates itself]",
+                                "not decided: the replay applies this operator's own duplicate test to every true row (suppress_true_duplicates=True), whose key is "
+                                "computed from the same parent chain as the operand's; no failing input is known", line=call.lineno))
+                continue
+            ok = not admits or asks_child
+            out.append(inst("REPLAY-CHILD-DEDUP", HOLDS if ok else VIOLATION, m, f"{m.short}[replay of self.{side}: an operand that suppresses true duplicates itself]",
+                            f"the replay goes through self.{side}'s own duplicate test" if ok else
+                            f"self.{side} can be a {' / '.join(suppressing)}, which drops a true row when what the parent keeps of it was seen before; the replay of its rows from "
+                            f"self.{cexpr.attr} hands on what it yielded for the binding the cache entry was made for, without that test: the number of rows differs "
+                            f"between caching on and off and between the first and later evaluations", line=call.lineno))
+    if n == 0:
+        raise AnalysisError("no per-operand replay found")
+    return out
